@@ -12,6 +12,7 @@ import RV.Proofs.C01Janus
 import RV.Proofs.C01JanusWords
 import RV.Proofs.C01Ias15
 import RV.Proofs.C01Leapfrog
+import RV.Proofs.C01Mercurius
 import RV.Proofs.C01Flow
 /-
   C01 — every integrator converges to the true N-body solution at its advertised order.   **PARTIAL.**
@@ -196,6 +197,27 @@ theorem c01_leapfrog : leapfrogStep = [⟨0, 1/2, 1⟩, ⟨2, 0, 0⟩, ⟨1, 1, 
     (Consistent leapfrogStep 0 ∧ Palindrome leapfrogStep ∧ Fresh leapfrogStep ∧
       WordOrder leapfrogStep [2, 2, 2] 0 0 ∧ ¬ WordOrder leapfrogStep [3, 3, 2] 0 (1/100)) :=
   ⟨Leapfrog.schedule, Leapfrog.properties⟩
+
+/-! ### MERCURIUS away from close encounters (both safe modes, both synchronisation states) -/
+/-- safe mode: kick ½, jump ½, Kepler + centre of mass 1, jump ½, kick ½: consistent, palindrome, fresh forces, second order -/
+theorem c01_mercurius_safe : mercCounts = [("schedules", 7)] ∧
+    merc_safe = [⟨2, 0, 0⟩, ⟨1, 1/2, 0⟩, ⟨3, 1/2, 0⟩, ⟨0, 1, 1⟩, ⟨3, 1/2, 0⟩, ⟨2, 0, 0⟩, ⟨1, 1/2, 0⟩] ∧
+    (Consistent merc_safe 0 ∧ Palindrome merc_safe ∧ Fresh merc_safe ∧ jumpSum merc_safe = 1 ∧
+      Quadrature merc_safe 2 0 ∧ WordOrder merc_safe [2, 2, 2] 0 0 ∧ ¬ WordOrder merc_safe [3, 3, 2] 0 (1/100)) :=
+  ⟨Mercurius.counts, Mercurius.safe_schedule, Mercurius.safe_properties⟩
+/-- safe_mode = 0: the leading kick is ½ when synchronized and 1 when not (chosen by the *state*, not by the option);
+    first step ++ later step ++ synchronize is what two steps + synchronize execute -/
+theorem c01_mercurius_unsafe_states : merc_unsafe_first = [⟨2, 0, 0⟩, ⟨1, 1/2, 0⟩, ⟨3, 1/2, 0⟩, ⟨0, 1, 1⟩, ⟨3, 1/2, 0⟩] ∧
+    merc_unsafe_next = [⟨2, 0, 0⟩, ⟨1, 1, 0⟩, ⟨3, 1/2, 0⟩, ⟨0, 1, 1⟩, ⟨3, 1/2, 0⟩] ∧
+    merc_sync_only = [⟨2, 0, 0⟩, ⟨1, 1/2, 0⟩] ∧
+    merc_two_unsync = merc_unsafe_first ++ merc_unsafe_next ++ merc_sync_only ∧
+    Fresh merc_unsafe_first ∧ Fresh merc_unsafe_next ∧ Fresh merc_two_unsync := Mercurius.unsafe_states
+/-- unsynchronised stepping (also across an intermediate synchronize) = synchronized stepping; safe mode entered in an
+    unsynchronised state first completes the pending half kick -/
+theorem c01_mercurius_unsync : norm merc_two_unsync = norm (merc_safe ++ merc_safe) ∧
+    norm merc_three_unsync_resync = norm (merc_safe ++ merc_safe ++ merc_safe) ∧
+    kickSum merc_three_unsync_resync = 3 ∧ driftSum merc_three_unsync_resync = 3 ∧ jumpSum merc_three_unsync_resync = 3 ∧
+    merc_safe_from_unsync = merc_sync_only ++ merc_safe := Mercurius.unsync
 
 /-! ### the abstract lemmas (any monoid, any flows, any step size) -/
 open Flow in
